@@ -1,4 +1,5 @@
 import IbicusModel.Props.C13
+import IbicusModel.Lemmas.GenGridLoops
 -- property theorems
 #print axioms Props.C13.failAt_complete
 #print axioms Props.C13.failsafe_isolates
@@ -20,3 +21,25 @@ import IbicusModel.Props.C13
 -- tier A: dispatch table and map-function statements regenerated from the source = model
 #print axioms Lemmas.GenGridDispatch.paths
 #print axioms Lemmas.GenGridDispatch.facts
+-- tier A, semantic: structure of the catch wrapper / map functions / apply regenerated from the source = expected spec,
+-- and denotation of the expected spec = the functions of Model/Grid.lean the theorems above are stated on
+#print axioms Lemmas.GenGridLoops.catchSpec
+#print axioms Lemmas.GenGridLoops.serialSpec
+#print axioms Lemmas.GenGridLoops.parallelSpec
+#print axioms Lemmas.GenGridLoops.applyDebiaser
+#print axioms Lemmas.GenGridLoops.applyDeltaChange
+#print axioms Lemmas.GenGridLoops.denote_catch
+#print axioms Lemmas.GenGridLoops.denote_cellCall
+#print axioms Lemmas.GenGridLoops.denote_cellCall_default
+#print axioms Lemmas.GenGridLoops.denote_serial
+#print axioms Lemmas.GenGridLoops.evalCells_indexList
+#print axioms Lemmas.GenGridLoops.denote_parallel
+#print axioms Lemmas.GenGridLoops.denote_branch
+#print axioms Lemmas.GenGridLoops.denote_applyDebiaser
+#print axioms Lemmas.GenGridLoops.denote_applyDeltaChange
+#print axioms Lemmas.GenGridLoops.gen_apply_eq_spec
+#print axioms Lemmas.GenGridLoops.catchResult_eq
+#print axioms Lemmas.GenGridLoops.denote_cellCallSt
+#print axioms Lemmas.GenGridLoops.denote_serialSt
+#print axioms Lemmas.GenGridLoops.chunkRun_eq
+#print axioms Lemmas.GenGridLoops.denote_parallelSt
